@@ -7,18 +7,21 @@ LEAN_MODULE = "HexProps.C12"
 SCOPE = [("manager.fill", 400, 60), ("manager.collapse", 100, 60), ("manager.state", 150, 50), ("hexital", 100, 40)]
 ORACLE_RULE = ("C12: streams with single, multiple and multi-bucket gaps x timeframe x append schedule with timeframe_fill=True on the real "
                "CandleManager vs an independent resample+fill; contiguity, flat zero-volume fills and schedule independence checked at every step; "
-               "the same with the Heikin-Ashi type on (the inserted candles carry the RAW previous close), and for every manager of a Hexital "
+               "the same with a lifespan (the held candles are the tail of the filled series), with the Heikin-Ashi type on (the inserted candles carry the RAW previous close), and for every manager of a Hexital "
                "with timeframe_fill whose members name several timeframes")
 ASSUMPTIONS = ["timestamps are naive datetimes at second resolution; TZ=UTC for this check"]
 PARTIAL = ''
 _case = om.make_case(ID, tf=True, fill=True)
 _case_ha = om.make_case(ID, tf=True, fill=True, ha=True)
+# with a lifespan the held candles are the tail of the filled series (filling happens before trimming, whatever the schedule)
+_case_life = om.make_case(ID, tf=True, fill=True, life=True)
 
 
 def oracle(ctx):
     n = (300 if ctx["tier"] == "quick" else 3000) * ctx["boost"]
     sz = {"size": 60 if ctx["tier"] == "quick" else 200}
     return cm.merge_results(cm.run_cases(_case, ctx["seed"], ID, n, sz), cm.run_cases(_case_ha, ctx["seed"], ID + "ha", n // 3, sz),
+                            cm.run_cases(_case_life, ctx["seed"], ID + "l", n // 2, sz),
                             cm.run_cases(om.case_hexital_tfs, ctx["seed"], ID + "hx", n // 3, {**sz, "fill": True, "pid": ID}))
 
 
